@@ -97,9 +97,12 @@ def project(seq, ctx):
             wts = np.asarray(cs.detuning_map.weights, dtype=float)
             mp = [int(round(2 * float(np.max(wts)))), int(round(2 * float(np.sum(wts))))]
             wt = bool(cs._waiting_for_first_pulse)
+            wmap = cs.detuning_map.get_qubit_weight_map(seq.register.qubits)
+            wq = [int(round(2 * float(wmap[f"q{k}"]))) for k in range(1, ctx.dev["nq"] + 1)]
         else:
-            mp, wt = [0, 0], False
+            mp, wt, wq = [0, 0], False, []
         ent = {"nm": ctx.nm_of(name), "cid": cid, "sl": slots, "eb": blocks, "wt": wt, "mp": mp,
+               "wq": wq,
                "du": int(cs.get_duration()), "df": int(cs.get_duration(include_fall_time=True))}
         chans.append(ent)
     refs = []
